@@ -216,6 +216,14 @@ func main() {
 			armed, taken, caseDone, closedCbs = nil, false, nil, 0
 			mu.Unlock()
 			fmt.Printf("disarmed %d\n", be.Count())
+		case line == "census":
+			// goroutines of the proxy (serving connections, HTTP/2 server loops, hand-over conns)
+			n, stacks := rig.Census("fingerproxy/pkg/proxyserver", "fingerproxy/pkg/http2.(*serverConn)", "fingerproxy/pkg/hack")
+			last := ""
+			if len(stacks) > 0 {
+				last = strings.ReplaceAll(stacks[len(stacks)-1], "\n", " | ")
+			}
+			fmt.Printf("census %d %s\n", n, last)
 		case line == "quit":
 			os.Exit(0)
 		}
